@@ -1,1 +1,2 @@
 import Pendulum.Props.C15
+import Pendulum.Proofs.Zone4
